@@ -9,7 +9,7 @@ from ..strategies import program_strategy, spec_strategy
 from ._sim_common import frac, summarize
 
 ID = "C15"
-RULE = ("Hypothesis generates 2-3 markets, a PriceLimitRule with rate r in {0.005..0.5} over a non-empty proper or full subset of "
+RULE = ("Hypothesis generates 2-3 markets (whose names are prefixes / suffixes / case variants of one another in three cases of four), a PriceLimitRule with rate r in {0.005..0.5} over a non-empty proper or full subset of "
         "them (in half of the cases with a second rule of another rate over remaining markets, enabled or not), and scripted agents whose limit prices lie far outside, exactly on the edge of (p0*(1+-r) requested as an absolute "
         "price is approximated by integer/fractional tick offsets up to +-60 ticks), and inside the band, plus market orders. A "
         "probe event registered before the rule records, for every pending order, the asked price and p0 = "
@@ -25,7 +25,10 @@ ASSUMPTIONS = ["p0 is what get_market_price(0) returns when the rule looks (slot
 @st.composite
 def cases(draw, tier):
     nm = draw(st.integers(2, 3))
-    names = [f"M{i}" for i in range(nm)]
+    # (market names that are prefixes / suffixes / case variants of one another: a rule names its targets exactly)
+    names = draw(st.sampled_from([["M0", "M1", "M2"], ["M1", "M10", "M"], ["Spot", "Spot-1", "aSpot"], ["m0", "M0", "M00"]]))[:nm]
+    if draw(st.booleans()):
+        names = names[::-1]
     cfg = {"simulation": {"markets": list(names), "agents": ["A0"], "sessions": []}}
     for n in names:
         cfg[n] = {"class": "Market", "tickSize": draw(st.sampled_from([1.0, 0.5, 0.1, 0.01])), "marketPrice": draw(st.sampled_from([100.0, 250.0, 1000.0]))}
